@@ -150,3 +150,24 @@ def cyclic_structure(enc, basis, n, k, v, res):
     if not (nat or rv):
         c = next(c for c in basis if P.mod(c, g))
         v("multiples-of-g", f"codeword {gf2.bits(c, n)} is not a multiple of g={g:#b} (in natural nor in reversed coefficient order for the whole code)")
+
+
+# ----------------------------------------------------------------------------- spelling equivalence of the constructors behind this property
+# (positional / keyword / mixed spellings of one legal call configure the same object; shared helper kmc/spelling.py)
+_cases0, _execute0, _component0 = cases, execute, component_of
+
+
+def cases(tier, seed):  # noqa: F811
+    yield from _cases0(tier, seed)
+    yield f"{PID}|spelling", {"kind": "spelling", "tier": tier}
+
+
+def execute(p, res):  # noqa: F811
+    if p.get("kind") == "spelling":
+        from kmc import spelling
+        return spelling.run(PID, res)
+    return _execute0(p, res)
+
+
+def component_of(p):  # noqa: F811
+    return "spelling" if p.get("kind") == "spelling" else _component0(p)
